@@ -139,6 +139,9 @@ struct htp_connp_t {
      */
     bstr *in_header;
 
+    /** Set when in_header was assembled from more than one (folded) line. */
+    int in_header_folded;
+
     /** Ongoing inbound transaction. */
     htp_tx_t *in_tx;
 
